@@ -9,7 +9,7 @@
    variable names (theorems mk_fun_wf / mk_mat_wf).  The iteration order of an expression's
    variable set (PYTHONHASHSEED) is the field [fparams] of the function: every theorem below
    quantifies over it. *)
-From PyDcop Require Import Base M_RelKinds P_RelKinds.
+From PyDcop Require Import Base M_RelKinds P_RelKinds P_RelKinds2.
 From Coq Require Import Permutation.
 Open Scope Z_scope.
 
@@ -142,5 +142,113 @@ Proof.
   { eapply (mk_mat_wf_l [(0, d); (1, d)] [3; 3]%nat [1; 2; 3; 4; 5; 6; 7; 8; 9]); [|reflexivity].
     repeat constructor; simpl; intuition congruence. }
   split; [vm_compute; reflexivity|].
+  split; reflexivity.
+Qed.
+
+(* ======================= Deepening: conditional relations, all 8 kinds =======================
+   (proofs in P_RelKinds2).  [wf_cond c t]: both parts well-formed and a variable name used by
+   both denotes the same Variable (name and domain: Variable.__eq__).  [wf r] = wf_b / wf_cond.
+   [complete_for d ns]: d is a dict (distinct keys) whose key set is exactly ns -- a completion.
+   [neutral_ok r]: a conditional has return_neutral = True. *)
+
+(* (1) the call forms of a ConditionalRelation agree (value or raised exception) on every full
+   assignment given as keywords in any order *)
+Theorem cond_call_forms_agree : forall c t rn vals kw,
+  wf_cond c t -> List.length vals = List.length (dims (RCond c t rn)) ->
+  Permutation kw (combine (names (RCond c t rn)) vals) ->
+  call_kw (RCond c t rn) kw = call_pos (RCond c t rn) vals /\
+  gv_dict (RCond c t rn) kw = call_pos (RCond c t rn) vals /\
+  gv_list (RCond c t rn) vals = call_pos (RCond c t rn) vals /\
+  (forall o, call_dictarg (RCond c t rn) kw = Some o -> o = call_pos (RCond c t rn) vals).
+Proof. exact cond_call_forms_agree_l. Qed.
+
+(* ... hence for all 8 kinds *)
+Theorem call_forms_agree_all : forall r vals kw,
+  wf r -> List.length vals = List.length (dims r) ->
+  Permutation kw (combine (names r) vals) ->
+  call_kw r kw = call_pos r vals /\ gv_dict r kw = call_pos r vals /\ gv_list r vals = call_pos r vals /\
+  (forall o, call_dictarg r kw = Some o -> o = call_pos r vals).
+Proof. exact call_forms_agree_all_l. Qed.
+
+(* (2) slicing a conditional relation (return_neutral = True) on ANY partial assignment p,
+   deciding the condition or not: the result is well-formed (a conditional again keeps
+   return_neutral), its dimensions are exactly the remaining variables (a conditional lists its
+   dimensions sorted by name, a sliced consequence in its own order: hence Permutation), and it
+   agrees with the original on every completion *)
+Theorem cond_slice_spec : forall c t p r',
+  wf_cond c t -> NoDup (map fst p) -> slice (RCond c t true) p = Ok r' ->
+  wf r' /\ neutral_ok r' /\
+  Permutation (dims r') (remaining p (dims (RCond c t true))) /\
+  forall d, complete_for d (names r') -> gv_dict r' d = gv_dict (RCond c t true) (p ++ d).
+Proof. exact cond_slice_spec_l. Qed.
+
+(* with return_neutral = False the same holds for every slice except the one of the known
+   finding (condition decided and false), see cond_false_zeroary_refuted *)
+Theorem cond_slice_spec_no_neutral : forall c t p r',
+  wf_cond c t -> NoDup (map fst p) ->
+  (forall cv, List.length (cond_part c p) = List.length (bdims c) ->
+              bcall_kw c (cond_part c p) = Ok cv -> truthy cv = true) ->
+  slice (RCond c t false) p = Ok r' ->
+  wf r' /\
+  Permutation (dims r') (remaining p (dims (RCond c t false))) /\
+  forall d, complete_for d (names r') -> gv_dict r' d = gv_dict (RCond c t false) (p ++ d).
+Proof. exact cond_slice_spec_no_neutral_l. Qed.
+
+(* slice spec for every kind at once *)
+Theorem slice_spec_all : forall r p r',
+  wf r -> neutral_ok r -> NoDup (map fst p) -> slice r p = Ok r' ->
+  wf r' /\ neutral_ok r' /\
+  Permutation (dims r') (remaining p (dims r)) /\
+  forall d, complete_for d (names r') -> gv_dict r' d = gv_dict r (p ++ d).
+Proof. exact slice_spec_all_l. Qed.
+
+(* (3) several steps = one step, including when the intermediate relation is a partially
+   sliced conditional (nested) *)
+Theorem cond_slice_compose : forall c t p1 p2 r1 r2 r12,
+  wf_cond c t -> NoDup (map fst (p1 ++ p2)) ->
+  slice (RCond c t true) p1 = Ok r1 -> slice r1 p2 = Ok r2 -> slice (RCond c t true) (p1 ++ p2) = Ok r12 ->
+  (forall k, In k (map fst p2) -> In k (names r1)) ->
+  Permutation (dims r12) (dims r2) /\
+  forall d, complete_for d (names r2) -> gv_dict r12 d = gv_dict r2 d.
+Proof. exact cond_slice_compose_l. Qed.
+
+Theorem slice_compose_all : forall r p1 p2 r1 r2 r12,
+  wf r -> neutral_ok r -> NoDup (map fst (p1 ++ p2)) ->
+  slice r p1 = Ok r1 -> slice r1 p2 = Ok r2 -> slice r (p1 ++ p2) = Ok r12 ->
+  (forall k, In k (map fst p2) -> In k (names r1)) ->
+  Permutation (dims r12) (dims r2) /\
+  forall d, complete_for d (names r2) -> gv_dict r12 d = gv_dict r2 d.
+Proof. exact slice_compose_all_l. Qed.
+
+(* non-vacuity of the conditional theorems: condition = 2x2 matrix over v0, v1 (true only on
+   v0=1,v1=1), consequence 'v1 + 10*v2' (keyword mapping), sharing v1.  Slicing on v1=1 leaves the
+   condition undecided: a conditional over [v0; v2]; then v0=1 decides it (true) and v0=0
+   decides it (false: neutral relation over v2) *)
+Example c11_cond_nonvacuous :
+  let d := [0; 1] in
+  let c := RMat [((0, d), 2%nat); ((1, d), 1%nat)] [0; 0; 0; 1] 0%nat in
+  let e := EAdd (EV 1) (EMul (EC 10) (EV 2)) in
+  let vt := [(2, d); (1, d)] in
+  let t := RFun (mkFn FExpr [1; 2] e []) vt (ident_mapping vt) true in
+  wf_cond c t /\ names (RCond c t true) = [0; 1; 2] /\
+  call_kw (RCond c t true) [(2, 1); (0, 1); (1, 1)] = Ok 11 /\ call_pos (RCond c t true) [1; 1; 1] = Ok 11 /\
+  call_pos (RCond c t true) [0; 1; 1] = Ok 0 /\
+  exists sc st r2 r3,
+    slice (RCond c t true) [(1, 1)] = Ok (RCond sc st true) /\ names (RCond sc st true) = [0; 2] /\
+    gv_dict (RCond sc st true) [(2, 1); (0, 1)] = Ok 11 /\
+    slice (RCond sc st true) [(0, 1)] = Ok r2 /\ names r2 = [2] /\ gv_dict r2 [(2, 1)] = Ok 11 /\
+    slice (RCond sc st true) [(0, 0)] = Ok r3 /\ names r3 = [2] /\ gv_dict r3 [(2, 1)] = Ok 0.
+Proof.
+  intros d c e vt t. split.
+  { split; [|split].
+    - vm_compute. repeat constructor; simpl; intuition congruence.
+    - simpl. split; [repeat constructor; simpl; intuition congruence|].
+      split; [repeat constructor; simpl; intuition congruence|].
+      split; [simpl; tauto|]. split; [reflexivity|]. intros a; simpl; intuition.
+    - simpl. intros v v' [<-|[<-|[]]] [<-|[<-|[]]]; simpl; intros H; try discriminate; reflexivity. }
+  split; [reflexivity|]. split; [reflexivity|]. split; [reflexivity|]. split; [reflexivity|].
+  do 4 eexists. split; [vm_compute; reflexivity|].
+  split; [reflexivity|]. split; [reflexivity|]. split; [vm_compute; reflexivity|].
+  split; [reflexivity|]. split; [reflexivity|]. split; [vm_compute; reflexivity|].
   split; reflexivity.
 Qed.
